@@ -3,11 +3,12 @@
 //   enc <fmt> <tree tokens>   build the DOM with the public API, print hex(Xml::encode(tree, fmt))
 //   rt  <fmt> <tree tokens>   dump(Xml::decode(Xml::encode(tree, fmt)))
 //   sub <hex> <k>             decode, keep only the k-th node (document order, k mod count), release the tree, dump the survivor
-//   deep <n> <kind>           decode a document nested n levels (0: closed, 1: closed then mismatched end tag, 2: unclosed)
+//   deep <n> <kind>           decode a document nested n levels (0: closed, 1: closed then mismatched end tag, 2: unclosed, 3: closed around the text "x")
 // tree tokens (preorder): E <hextag> <nattr> {<hexname> <hexval>} <nchildren> children... | T <hextext>
 // dump: element  E<hextag>[<hexname>=<hexval>,...]{<flag><child> ...}   text  T<hex>
 //       flag '+' iff child.parent() == containing element, '!' otherwise; the whole dump is prefixed with
-//       R+ iff the returned element's own parent() is a null object, R! otherwise
+//       R+ iff the returned element's own parent() is a null object, R! otherwise, and followed by
+//       " t=<hex of result.text()>"
 #include "common.h"
 #include <asl/Xml.h>
 using namespace asl;
@@ -54,6 +55,8 @@ static std::string show(const Xml& e)
 	// so a dangling one is an ASan report)
 	std::string out = e.parent().isnull() ? "R+" : "R!";
 	dump(e, out);
+	const String& tx = e.text();   // Xml::text() of the result (for an element: the text at the end of its first-child chain)
+	out += " t=" + hex(*tx, tx.length());
 	return out;
 }
 
@@ -107,7 +110,8 @@ static std::string deepShow(const Xml& root)
 			work.push_back(std::make_pair(e.child(i), d + 1));
 		}
 	}
-	return "deep depth=" + str(depth) + " nodes=" + str(nodes) + " badparents=" + str(bad);
+	const String& tx = root.text();   // walks the first-child chain
+	return "deep depth=" + str(depth) + " nodes=" + str(nodes) + " badparents=" + str(bad) + " text=" + hex(*tx, tx.length());
 }
 
 static std::string step(const Toks& t)
@@ -119,6 +123,7 @@ static std::string step(const Toks& t)
 		std::string d;
 		if (t[2] == "1") d += "<r>";
 		for (long long i = 0; i < n; i++) d += "<a>";
+		if (t[2] == "3") d += "x";
 		if (t[2] != "2") for (long long i = 0; i < n; i++) d += "</a>";
 		if (t[2] == "1") d += "</x>";
 		Xml e = Xml::decode(String(d.data(), (int)d.size()));
@@ -137,6 +142,8 @@ static std::string step(const Toks& t)
 		}
 		std::string out = c.parent().isnull() ? "R+" : "R!";
 		dump(c, out);
+		const String& tx = c.text();
+		out += " t=" + hex(*tx, tx.length());
 		return out;
 	}
 	if (op == "dec" && t.size() == 2) {
